@@ -1,4 +1,87 @@
-(* placeholder until the proofs are in: replaced below *)
-From YV Require Import PyBase Replace.
-Example c13_smoke : match_sep [32; 10; 32; 97]%N = Some (3, [97%N]).
-Proof. reflexivity. Qed.
+(* C13 -- phrase replacement keeps text and position map consistent.
+   Only statements here; each is closed by `exact` of a lemma proved in
+   coq/proofs.  Model: coq/model/Replace.v (utils.replace_phrases and
+   utils.substitute), character classes from coq/gen/CharTables.v. *)
+From YV Require Import PyBase CharTables Replace ReplaceProofs PhraseLang C13Proofs.
+
+Definition replace_phrases_py := replace_phrases py_isspace py_isalpha py_word.
+Definition substitute_py := substitute py_isalpha py_word.
+
+(* (1) for every text, every position list of the same length (monotone or
+   not) and every list of rule lines, replace_phrases returns (no IndexError)
+   and text and position list have equal length again *)
+Theorem C13_length : forall lines txt pos,
+  length txt = length pos ->
+  exists t' p', replace_phrases_py txt pos lines = Ok (t', p')
+                /\ length t' = length p'.
+Proof. exact (replace_phrases_total py_isspace py_isalpha py_word). Qed.
+Print Assumptions C13_length.
+
+(* (2) one rule: the output is aligned with the input -- a character outside
+   a replaced span is copied with its position (al_keep), a replaced span u
+   with positions pu yields the replacement with positions rp such that the
+   k-th inserted character has the k-th position of pu, the last one repeated
+   (rpos_spec); spans are replaced where P_rule holds, characters are kept
+   only where Q_rule holds *)
+Theorem C13_outside_unchanged_inserted_positions : forall txt pos ws repl,
+  length txt = length pos ->
+  exists t' p', substitute_py txt pos ws repl = Ok (t', p') /\
+    aligned repl (P_rule py_isalpha py_word ws txt)
+                 (Q_rule py_isalpha py_word ws txt) 0 txt pos t' p'.
+Proof. exact (substitute_aligned py_isalpha py_word). Qed.
+Print Assumptions C13_outside_unchanged_inserted_positions.
+
+(* (3) a replaced span is an occurrence of the phrase: the words separated by
+   blanks/tabs with at most one line break, \b at the start if the phrase
+   begins with a letter and at the end if it ends with one *)
+Theorem C13_replaced_is_occurrence : forall ws txt i m,
+  P_rule py_isalpha py_word ws txt i m -> occurrence ws txt i m /\ 1 <= m.
+Proof. exact P_rule_occurrence. Qed.
+Print Assumptions C13_replaced_is_occurrence.
+
+(* (4) and conversely no occurrence is skipped: where a character is kept,
+   no non-empty occurrence starts (leftmost, non-overlapping) *)
+Theorem C13_kept_has_no_occurrence : forall lin txt i m,
+  let ws := r_words (parse_rule py_isspace lin) in
+  Q_rule py_isalpha py_word ws txt i -> occurrence ws txt i m -> m = 0.
+Proof.
+  intros lin txt i m ws. exact (Q_rule_no_occurrence ws txt i m (rule_words_ok lin)).
+Qed.
+Print Assumptions C13_kept_has_no_occurrence.
+
+(* (5) never across a paragraph break: a separator holds at most one line
+   break and the words of a rule hold none *)
+Theorem C13_separator_one_line_break : forall s,
+  sep_lang s -> count_char c_nl s <= 1.
+Proof. exact sep_lang_one_nl. Qed.
+Theorem C13_words_no_line_break : forall lin,
+  Forall (fun w => count_char c_nl w = 0) (r_words (parse_rule py_isspace lin)).
+Proof. exact rule_words_no_nl. Qed.
+Print Assumptions C13_separator_one_line_break.
+Print Assumptions C13_words_no_line_break.
+
+(* (6) '#' starts a comment; a line without left-hand side is ignored *)
+Theorem C13_comment : forall a b,
+  Forall (fun c => c <> c_hash) a ->
+  parse_rule py_isspace (a ++ c_hash :: b) = parse_rule py_isspace a.
+Proof. exact (parse_rule_comment py_isspace). Qed.
+Theorem C13_empty_lhs_ignored : forall lin lines txt pos,
+  r_words (parse_rule py_isspace lin) = [] ->
+  replace_phrases_py txt pos (lin :: lines) = replace_phrases_py txt pos lines.
+Proof. exact (replace_phrases_skip py_isspace py_isalpha py_word). Qed.
+Print Assumptions C13_comment.
+Print Assumptions C13_empty_lhs_ignored.
+
+(* non-vacuity: a concrete text, a non-monotone position list, two rules,
+   one of them with a replacement longer than the phrase *)
+Example C13_example :
+  replace_phrases_py [115;111;32;10;100;97;115;115;32;120]%N
+                     [9;8;7;6;5;4;3;2;1;0]%Z
+                     [[115;111;32;100;97;115;115;32;38;32;115;111;100;97;115;115;115;115;115]%N;
+                      [120;32;38]%N]
+  = Ok ([115;111;100;97;115;115;115;115;115;32]%N, [9;8;7;6;5;4;3;2;2;1]%Z).
+Proof. vm_compute. reflexivity. Qed.
+Example C13_example_occurrence :
+  P_rule py_isalpha py_word [[115;111]%N; [100;97;115;115]%N]
+         [115;111;32;10;100;97;115;115;32;120]%N 0 8.
+Proof. split; [vm_compute; reflexivity | repeat constructor]. Qed.
